@@ -1325,8 +1325,13 @@ def r_position_unwrap(P, L, s, d):
                 good = all("ToOwned::to_owned(elem(Iterator::enumerate([T]::iter(self.signals))).1)" in r for r in rets)
             inner = P.body(s.body.name + "::{closure#0}")
             if good and inner is not None:
-                cs = canon_calls(P, inner)
-                good = any("::eq" in n for n, a in cs)
+                # the predicate is exactly `sig_name == name` (element of self.signals against the searched copy), not its negation
+                rets = set(canon(P.resolve(inner, P.sl(inner).ret(rb))) for rb in P.cfg(inner).return_blocks())
+                A = "elem([T]::iter(self.signals))"
+                B = "elem([T]::iter(Iterator::collect(Iterator::filter_map(Iterator::enumerate([T]::iter(self.signals)), closure({closure#0})))))"
+                r0 = next(iter(rets)) if len(rets) == 1 else ""
+                m0 = re.match(r"PartialEq[^(]*::eq\(", r0)
+                good = bool(m0) and r0[m0.end():-1] in ("%s, %s" % (A, B), "%s, %s" % (B, A))
             return (good, "the searched name is a copy of an element of self.signals, so position() is Some")
     return None
 
@@ -1616,9 +1621,31 @@ def r_header_lex(P, L, s, d):
     return None
 
 
+_TP_TAKE = "Iterator::take(str::lines(input), SubWithOverflow((pos.row as usize), 1).0)"
+_TP_SUM = "Iterator::sum(Iterator::map(%s, closure({closure#0})))" % _TP_TAKE
+TEXT_POS_SITES = {
+    # (function suffix, construct, a / args[0], b): why it cannot trip under the library assumption
+    ("", "Overflow(Sub)", "(pos.row as usize)", "1"): "row >= 1",
+    ("::{closure#0}", "Overflow(Add)", "str::len(elem(%s))" % _TP_TAKE, "1"): "a line of the text plus its line break is no longer than the text",
+    ("", "Iterator::sum", "Iterator::map(%s, closure({closure#0}))" % _TP_TAKE, None): "the first row-1 lines with their line breaks are a prefix of the text",
+    ("", "Overflow(Add)", _TP_SUM, "(pos.col as usize)"): "prefix length + column <= 2 * len(text)",
+    ("", "Overflow(Sub)", "AddWithOverflow(%s, (pos.col as usize)).0" % _TP_SUM, "1"): "column >= 1",
+}
+
+
 def r_text_pos(P, L, s, d):
+    """XML error position -> byte offset.  The arithmetic must be exactly the confirmed one (widening casts of the library's
+    1-based u32 row / column, lines of the very text that was parsed); then it cannot trip under the library assumption."""
     if s.body.name.startswith("dig::text_pos_to_range"):
-        return (True, "LIBRARY ASSUMPTION: roxmltree text positions are 1-based and lie within the parsed text (sum of line lengths <= len)")
+        suffix = s.body.name[len("dig::text_pos_to_range"):]
+        a = d.get("a") if d["kind"] == "assert" else (d.get("args") or [None])[0]
+        why = TEXT_POS_SITES.get((suffix, d["construct"], a, d.get("b") if d["kind"] == "assert" else None))
+        if why is None:
+            return (False, "the offset arithmetic `%s` / `%s` is not the confirmed computation over the library's 1-based row and column" % (a, d.get("b")))
+        calls = [(b.name, [canon(x) for x in P.call_arg_terms(b, bb)]) for b, bb, nm in P.callers(lambda n: n == "dig::text_pos_to_range")]
+        if calls != [("dig::File::parse::{closure#0}", ["input", "Error::pos(elem(Document::parse(input)))"])]:
+            return (False, "text_pos_to_range is called as %s, not with the parsed text and the position of its own parse error" % calls)
+        return (True, "%s — LIBRARY ASSUMPTION: roxmltree text positions are 1-based and lie within the parsed text" % why)
     return None
 
 
